@@ -6,8 +6,8 @@ package sim
 
 import (
 	"encoding/json"
-	"os"
 	"fmt"
+	"os"
 	"sort"
 	"strings"
 	"testing"
@@ -25,6 +25,10 @@ type HistItem struct {
 	Evict  []string `json:"evict,omitempty"`
 	EvictN int      `json:"evict_n,omitempty"` // evict by hash: permille of objects
 	EvictK string   `json:"evict_kind,omitempty"`
+	// resumption (C04): start from the cursor of the ResumeK-th eligible (final-block) data message of request ResumeOf (1-based)
+	ResumeOf int  `json:"resume_of,omitempty"`
+	ResumeK  int  `json:"resume_k,omitempty"`
+	Fresh    bool `json:"fresh_disk,omitempty"` // run on an empty object store
 }
 
 type Scenario struct {
@@ -136,14 +140,16 @@ type Checker interface {
 
 // Exec is the execution context of one scenario.
 type Exec struct {
-	S      *Scenario
-	Sim    *Sim
-	Env    *Env
-	Disk   *Disk
-	Chain  *Chain
-	refs   map[string]*Ref
-	Rep    *RunReport
-	Probes map[string]int
+	S           *Scenario
+	Sim         *Sim
+	Env         *Env
+	Disk        *Disk
+	Chain       *Chain
+	refs        map[string]*Ref
+	Results     []*RunResult
+	ResumedFrom map[int]Msg // history index -> message whose cursor was used
+	Rep         *RunReport
+	Probes      map[string]int
 }
 
 func (x *Exec) Probe(name string) { x.Probes[name]++ }
@@ -293,7 +299,32 @@ func RunScenario(t *testing.T, s *Scenario, chk Checker, keepLog bool) (rep *Run
 			if h.Pkg != nil {
 				pkg = h.Pkg
 			}
+			if h.ResumeOf > 0 && h.ResumeOf <= len(x.Results) {
+				prev := x.Results[h.ResumeOf-1]
+				var elig []Msg
+				for _, m := range prev.Data() {
+					if cur, err := bstream.CursorFromOpaque(m.Cursor); err == nil && cur.IsOnFinalBlock() && (h.Req.Stop == 0 || m.Num+1 < h.Req.Stop) {
+						elig = append(elig, m)
+					}
+				}
+				if len(elig) == 0 {
+					x.Probes["resume_no_eligible_cursor"]++
+					x.Results = append(x.Results, &RunResult{})
+					continue
+				}
+				m := elig[h.ResumeK%len(elig)]
+				h.Req.Cursor = m.Cursor
+				h.Req.Start = 0
+				if x.ResumedFrom == nil {
+					x.ResumedFrom = map[int]Msg{}
+				}
+				x.ResumedFrom[i] = m
+			}
+			if h.Fresh {
+				disk.Restore(map[string][]byte{})
+			}
 			res := env.RunRequest(pkg, &h.Req, nil)
+			x.Results = append(x.Results, res)
 			dumpMsgs(res)
 			rep.Requests++
 			if res.Outcome != OutDone {
